@@ -77,6 +77,10 @@ package multiendpoint
 //@   loop 3 invariant lockinv(me.RWMutex, "M0", "M1", "M4")
 //@   loop 3 invariant forall id in me.endpoints :: id in newEndpoints
 //@   loop 3 invariant listed(me, endpoints, $i)
+// `seen` holds exactly the ids of the list positions visited so far (a repeated id keeps the priority of its first
+// occurrence; under C13.assume-nodup the skipping branch is dead)
+//@   loop 3 invariant forall k in seen :: exists j, x in endpoints :: j <= $i && x == k
+//@   loop 3 invariant forall j, x in endpoints :: j <= $i ==> x in seen
 //@   loop 3 invariant forall id, e in me.endpoints :: old(id in me.endpoints) ==> e == old(me.endpoints[id])
 //@   loop 3 invariant forall id string :: {id in newEndpoints} old(id in me.endpoints) && id in newEndpoints ==> id in me.endpoints
 //@ func (me *multiEndpoint) SetEndpointAvailability
